@@ -34,6 +34,42 @@ struct nni_sfd_conn {
 	nni_reap_node reap;
 };
 
+#ifdef NNG_VERIF
+// Verification hook (short-I/O clamp).  When a test harness installs
+// nni_verif_io_clamp, the iovec about to be handed to the kernel is trimmed
+// to the number of bytes the function returns (0, or anything not smaller
+// than the total, leaves it alone), so that partial reads and writes happen
+// at chosen places.  The pointer is NULL by default: no effect.
+extern size_t (*nni_verif_io_clamp)(size_t total, int is_write);
+static int
+nni_verif_trim_iov(struct iovec *iov, int niov, int is_write)
+{
+	size_t (*clamp)(size_t, int) = nni_verif_io_clamp;
+	size_t total                 = 0;
+	size_t lim;
+	int    i;
+
+	if (clamp == NULL) {
+		return (niov);
+	}
+	for (i = 0; i < niov; i++) {
+		total += iov[i].iov_len;
+	}
+	lim = clamp(total, is_write);
+	if ((lim == 0) || (lim >= total)) {
+		return (niov);
+	}
+	for (i = 0; i < niov; i++) {
+		if (iov[i].iov_len >= lim) {
+			iov[i].iov_len = lim;
+			return (i + 1);
+		}
+		lim -= iov[i].iov_len;
+	}
+	return (niov);
+}
+#endif
+
 static void
 sfd_dowrite(nni_sfd_conn *c)
 {
@@ -68,6 +104,9 @@ sfd_dowrite(nni_sfd_conn *c)
 			}
 		}
 
+#ifdef NNG_VERIF
+		niov = nni_verif_trim_iov(iovec, niov, 1);
+#endif
 		if ((n = writev(fd, iovec, niov)) < 0) {
 			switch (errno) {
 			case EINTR:
@@ -131,6 +170,9 @@ sfd_doread(nni_sfd_conn *c)
 			}
 		}
 
+#ifdef NNG_VERIF
+		niov = nni_verif_trim_iov(iovec, niov, 0);
+#endif
 		if ((n = readv(fd, iovec, niov)) < 0) {
 			switch (errno) {
 			case EINTR:
